@@ -99,6 +99,8 @@ func sharedSpec(version int) *rstep.ASpec {
 		// patterns of every kind live in the shared spec: arrays (a variable next to constants), property
 		// variables, optional and inequality variables - the matcher gets the spec's own pattern objects
 		"start": {Type: "message", Branches: []rstep.ABranch{
+			// an unguarded branch that a message may match in several ways: the step fails, for this machine alone
+			{Pattern: M{"go": "?g", "many": []interface{}{"?m"}}, Target: "a"},
 			{Pattern: M{"go": "?g", "pollute": true}, Target: "pollute"},
 			{Pattern: M{"go": "?g", "probe": true}, Target: "probe"},
 			{Pattern: M{"go": "?g", "tags": []interface{}{"?t", "x", "y"}}, Target: "a"},
@@ -336,6 +338,8 @@ func c12Scenarios(thorough bool) []c12Scenario {
 		{Name: "w8", Bs: M{"id": 8.0, "short": true}, Msgs: []interface{}{M{"go": 1.0}}},
 		{Name: "w9", Bs: M{"id": 9.0}, Msgs: []interface{}{M{"go": 1.0, "pollute": true}}},
 		{Name: "w10", Bs: M{"id": 10.0}, Msgs: []interface{}{M{"go": 1.0, "probe": true}, M{"go": 2.0, "probe": true}}},
+		{Name: "w11", Bs: M{"id": 11.0}, Msgs: []interface{}{M{"go": 1.0, "many": []interface{}{1.0, 2.0}}}},
+		{Name: "w12", Bs: M{"id": 12.0}, Msgs: []interface{}{M{"go": 1.0, "many": []interface{}{1.0, 2.0, 3.0}}, M{"go": 2.0}}},
 	}
 	var out []c12Scenario
 	for i := 0; i < len(ws); i++ {
@@ -347,6 +351,7 @@ func c12Scenarios(thorough bool) []c12Scenario {
 	out = append(out, c12Scenario{Kind: "shared", Walkers: []walker{ws[8], ws[9], ws[0]}})
 	out = append(out, c12Scenario{Kind: "shared", Walkers: []walker{ws[1], ws[3], ws[5]}})
 	out = append(out, c12Scenario{Kind: "shared", Walkers: []walker{ws[6], ws[1], ws[7]}})
+	out = append(out, c12Scenario{Kind: "shared", Walkers: []walker{ws[10], ws[11], ws[0]}})
 	if thorough {
 		out = append(out, c12Scenario{Kind: "shared", Walkers: []walker{ws[0], ws[1], ws[4]}})
 		out = append(out, c12Scenario{Kind: "shared", Walkers: []walker{ws[2], ws[3], ws[4]}})
